@@ -39,6 +39,8 @@ var (
 	nbatch = flag.Int("nbatch", 1, "")
 	replay = flag.String("replay", "", "")
 	only   = flag.Int("only", -1, "run only this configuration index (debugging)")
+	onlyRd = flag.Int("rd", -1, "run only this redial case index (debugging)")
+	class  = flag.String("class", "", "run only this scenario class: placement | redial (debugging)")
 	dump   = flag.Bool("dump", false, "print traces of violating messages to stderr (debugging)")
 )
 
@@ -897,6 +899,10 @@ type routerAPI interface {
 }
 
 func (r *run) buildPeer(side int, spec *PeerSpec) (erpc.Peer, map[int][]string) {
+	return r.buildPeerCfg(side, spec, erpc.PeerConfig{})
+}
+
+func (r *run) buildPeerCfg(side int, spec *PeerSpec, pcfg erpc.PeerConfig) (erpc.Peer, map[int][]string) {
 	var peer erpc.Peer
 	subs := map[int]*erpc.SubRouter{}
 	routes := map[int][]string{}
@@ -918,7 +924,7 @@ func (r *run) buildPeer(side int, spec *PeerSpec) (erpc.Peer, map[int][]string) 
 		}
 		switch op.Kind {
 		case "new":
-			peer = erpc.NewPeer(erpc.PeerConfig{}, mk(op.Plugs)...)
+			peer = erpc.NewPeer(pcfg, mk(op.Plugs)...)
 		case "left":
 			peer.PluginContainer().AppendLeft(mk(op.Plugs)...)
 		case "right":
@@ -955,7 +961,11 @@ func putsOf(s erpc.Session) int64 {
 }
 
 func onGate(point string, sess erpc.Session) {
-	if point != "ctx.put" || sess == nil {
+	if sess == nil {
+		return
+	}
+	if point != "ctx.put" {
+		rdGate(point, sess)
 		return
 	}
 	v, ok := puts.Load(sess)
@@ -1224,9 +1234,14 @@ type checker struct {
 	count func(key string) // evidence counters (nil in minimisation runs)
 	// the reply of a call refused in PostReadCallHeader goes through the global container (evidence counters only)
 	globalOnly bool
+	// scenario classes that are not about placement (redial-retry) label every finding with their own class
+	classOverride string
 }
 
 func (ck *checker) report(symptom, kind, class, what string) {
+	if ck.classOverride != "" {
+		class = ck.classOverride
+	}
 	for _, v := range ck.viols {
 		if v.symptom == symptom && v.kind == kind && v.class == class {
 			return
@@ -1260,6 +1275,8 @@ func (ck *checker) stage(side int, kind string, st int, req, allowed []pref, act
 	seen := map[string]int{}
 	var veto *aent
 	var prev []*pref
+	var misordered [][2]*pref
+	repeated := false
 	for _, e := range es {
 		seen[e.Plug]++
 		p := find(allowed, e.Plug)
@@ -1272,15 +1289,23 @@ func (ck *checker) stage(side int, kind string, st int, req, allowed []pref, act
 			continue
 		}
 		if seen[e.Plug] == 2 {
+			repeated = true
 			ck.report("duplicate", kind, p.Class, fmt.Sprintf("%s: hook of %s recorded more than once for message %s", where, e.Plug, ck.m.ID))
 		}
 		for _, q := range prev {
 			if cmpReg(*q, *p) > 0 {
-				ck.report("registration-order", kind, p.Class,
-					fmt.Sprintf("%s: %s (%s) fired before %s (%s)", where, q.Name, q.Class, p.Name, p.Class))
+				misordered = append(misordered, [2]*pref{q, p})
 			}
 		}
 		prev = append(prev, p)
+	}
+	// when a stage ran twice the entries of the second run follow those of the first: that is the duplicate, not a wrong order
+	for _, qp := range misordered {
+		if repeated {
+			break
+		}
+		ck.report("registration-order", kind, qp[1].Class,
+			fmt.Sprintf("%s: %s (%s) fired before %s (%s)", where, qp[0].Name, qp[0].Class, qp[1].Name, qp[1].Class))
 	}
 	if active {
 		for i := range req {
@@ -1819,24 +1844,36 @@ func main() {
 		}
 		var f struct {
 			Desc struct {
-				Config *Config `json:"config"`
-				Cfg    int     `json:"cfg"`
+				Config *Config    `json:"config"`
+				Redial *RedialCfg `json:"redial"`
+				Cfg    int        `json:"cfg"`
 			} `json:"desc"`
 		}
-		if err := json.Unmarshal(b, &f); err != nil || f.Desc.Config == nil {
+		if err := json.Unmarshal(b, &f); err != nil || (f.Desc.Config == nil && f.Desc.Redial == nil) {
 			core.Fatalf("replay: no configuration in %s (%v)", *replay, err)
 		}
-		runCase("replay", f.Desc.Cfg, f.Desc.Config)
+		if f.Desc.Redial != nil {
+			runRedialCase("replay", f.Desc.Cfg, f.Desc.Redial)
+		} else {
+			runCase("replay", f.Desc.Cfg, f.Desc.Config)
+		}
 		core.Finish()
 		return
 	}
 
-	ncfg, nmsg := 150, 12
+	ncfg, nmsg, nrd := 150, 12, 60
 	if *tier == "thorough" {
-		ncfg, nmsg = 5000, 30
+		ncfg, nmsg, nrd = 5000, 30, 640
+	}
+	// scenario class "redial": messages issued while a dialed client session is redialing (real loopback TCP)
+	for i := 0; i < nrd; i++ {
+		if i%*nbatch != *batch || (*onlyRd >= 0 && i != *onlyRd) || *only >= 0 || *class == "placement" {
+			continue
+		}
+		runRedialCase(fmt.Sprintf("rd%04d", i), i, genRedial(core.NewRand(*seed, int64(i), 909)))
 	}
 	for i := 0; i < ncfg; i++ {
-		if i%*nbatch != *batch || (*only >= 0 && i != *only) {
+		if i%*nbatch != *batch || (*only >= 0 && i != *only) || *onlyRd >= 0 || *class == "redial" {
 			continue
 		}
 		cfg := genConfig(core.NewRand(*seed, int64(i), 9), nmsg)
